@@ -568,9 +568,11 @@ def run_server(rep, tier, seed, rng):
         core.log('design check %s: %d distinct states, %.0f s' % (cfgname, res['distinct'], res['wall']))
         # actions the configuration switches off (budget 0) are exercised by another configuration
         skip = OFF.get(cfgname[:-4], set())
-        zero = [z for z in res.get('zero_cov', []) if z not in skip]
+        # TLC reports a disjunct of MCNext that is never enabled under the NAME OF THE ENCLOSING DEFINITION (`<MCNext line ..>: 0:0`)
+        # next to the zero count of the action itself; the named entries decide, the `MCNext` echoes are dropped
+        zero = [z for z in res.get('zero_cov', []) if z not in skip and z != 'MCNext']
         rep.cov['coverage_zero_actions'] = [z for z in rep.cov['coverage_zero_actions']
-                                            if not (z.split(':')[0] == cfgname[:-4] and z.split(':')[1] in skip)]
+                                            if not (z.split(':')[0] == cfgname[:-4] and (z.split(':')[1] in skip or z.split(':')[1] == 'MCNext'))]
         if zero:
             raise core.Inconclusive('actions never taken in the design check %s: %s' % (cfgname, zero))
     # design-level self-test: the broken loops must violate the C16 predicates in the model
